@@ -136,7 +136,7 @@ def main():
         engines=engines,
         checks=checks,
         not_applicable=na,
-        notes='Technique family: deterministic simulation with fault injection. Exit codes of every command: 0 held, 1 VIOLATION, 2 harness error. VERIF_SEED selects the seed stream; VERIF_REPO may point the checks at another checkout (used only for sensitivity testing against scratch worktrees). No hook commit in /repo (seams are applied to a private build); one unguarded repair of a genuine defect found by C16: /repo commit fd10245 "fix: slice bounds that do not fit in a ssize_t raise IndexError, not OverflowError" (known_findings.json, DESIGN.md 7.7).')
+        notes='Technique family: deterministic simulation with fault injection. Exit codes of every command: 0 held, 1 VIOLATION, 2 harness error. VERIF_SEED selects the seed stream; VERIF_REPO may point the checks at another checkout (used only for sensitivity testing against scratch worktrees). No hook commit in /repo (seams are applied to a private build); two unguarded repairs of genuine defects: /repo commit fd10245 "fix: slice bounds that do not fit in a ssize_t raise IndexError, not OverflowError" (found by C16) and /repo commit be4601f "fix: a generated file whose C source contains a carriage return is no longer rewritten every time" (found by C23); see known_findings.json and DESIGN.md 7.7.')
     with open(os.path.join(HERE, 'MANIFEST.json'), 'w') as f:
         json.dump(man, f, indent=1)
         f.write('\n')
